@@ -14,3 +14,5 @@ def check(rep, tier):
     rep.run(discipline.run_frame, rep, tier)
     from contracts import core_backward
     rep.run(core_backward.run_proof, rep, tier, which=('backward_pass',))
+    from contracts import rules_numeric
+    rep.run(rules_numeric.run, rep, tier, clauses=('N-frozen',))
